@@ -9,6 +9,11 @@ Driver for C06 and C12 (one module, the batch model of `Model/Batch.lean`):
   plugin := grid | inject x<key> <json> <0|1> | lbnum x<col> | lbcat x<col> <n (x<sym> bits)…> <n | s bits>
           | table <n> (x<compact query text> (ok <json> | err <Kind> <json>))…
           | usplit x<key> | ufail x<marker> | ubreak x<key>      (the harness's user-defined plugins)
+  cli <selfPar> <env: n (x<file> open write)…> <runCfg: n | s json> <fmt> <plugins>
+      <chunksize: n | s int> <newline_delimited 0|1> <config: unreadable | unbuildable | good>
+      <query file: missing | dir | file <doc: n | s json> <n lines: x | t json …>> <respond>
+        (the real `command_line_runner`; the application persists responses and has a JSON file sink)
+        -> `panic` | `diverges` | (`ok` | `err <Kind>`) <runs> (<k> <k responses, sorted>… <lines reported as unparsable>)…
 
 `respond` is a table from the compact text of an expanded query to the canonical response the real
 `run_single_query` gave for it when run alone.
@@ -17,6 +22,7 @@ import Compass.Drv.Proto
 import Compass.Drv.JsonProto
 import Compass.Model.Batch
 import Compass.Model.BatchEntry
+import Compass.Model.Cli
 
 namespace Compass.Drv.C06
 open Compass Compass.Proto Compass.Batch
@@ -106,6 +112,42 @@ def callOut : Outcome (Except CallErr (List Json)) → String
   | .ok (.error (.app .minBinEmpty)) => "err MinBinEmpty"
   | .panic _ => "panic"
   | .diverges => "diverges"
+
+def callErrName : CallErr → String
+  | .notABatch => "NotABatch"
+  | .runConfig => "RunConfig"
+  | .sinkOpen => "SinkOpen"
+  | .flushRate => "FlushRate"
+  | .sinkWrite => "SinkWrite"
+  | .notJson => "NotJson"
+  | .app .minBinEmpty => "MinBinEmpty"
+
+def cliErrName : Cli.CliErr CallErr → String
+  | .chunksizeWithoutNewline => "ChunksizeWithoutNewline"
+  | .chunksizeNotPositive => "ChunksizeNotPositive"
+  | .configFile => "ConfigFile"
+  | .appBuild => "AppBuild"
+  | .queryFileMissing => "QueryFileMissing"
+  | .invalidCombination => "InvalidCombination"
+  | .notImplemented => "NotImplemented"
+  | .chunksizeOption => "ChunksizeOption"
+  | .notJson => "NotJson"
+  | .notABatch => "NotABatch"
+  | .run e => "Run:" ++ callErrName e
+
+/-- the responses of one run as a multiset: their encodings, sorted -/
+def sortedEnc (rs : List Json) : List String :=
+  (rs.map JsonProto.enc).mergeSort (fun a b => !(b < a))
+
+def cliOut : Outcome (Cli.CliOut CallErr (List Json)) → String
+  | .panic _ => "panic"
+  | .diverges => "diverges"
+  | .ok o =>
+    let head := match o.result with
+      | .ok () => "ok"
+      | .error e => "err " ++ cliErrName e
+    joinSp ((head ++ " " ++ toString o.log.length) ::
+      o.log.map (fun c => joinSp ((toString c.served.length :: sortedEnc c.served) ++ [toString c.parseErrors])))
 
 inductive Text where
   | absent
@@ -198,6 +240,40 @@ def case : P String := do
       let resp ← listOf (do let k ← JsonProto.str; let v ← JsonProto.json; pure (k, v))
       pure (callOut (runQueriesO floatOps env app cfgText (respondOf resp) texts))
     | _ => failure
+  | "cli" => do
+    let selfPar ← nat
+    let envT ← listOf (do let n ← JsonProto.str; let o ← bool; let w ← bool; pure (n, (o, w)))
+    let runCfg ← optOf JsonProto.json
+    let fmtT ← listOf (do let b ← nat; let l ← JsonProto.str; pure (b, l))
+    let plugins ← listOf (plugin (fmtOf fmtT))
+    let chunksize ← optOf int
+    let nd ← bool
+    let cfgTok ← next
+    let cfg ← match cfgTok with
+      | "unreadable" => pure Cli.ConfigFile.unreadable
+      | "unbuildable" => pure Cli.ConfigFile.unbuildable
+      | "good" => pure Cli.ConfigFile.good
+      | _ => failure
+    let fileTok ← next
+    let file ← match fileTok with
+      | "missing" => pure Cli.QueryFile.missing
+      | "dir" => pure Cli.QueryFile.unreadable
+      | "file" => do
+        let doc ← optOf JsonProto.json
+        let lines ← listOf (do
+          let t ← textOf
+          match t with
+          | .good v => pure (some v)
+          | .bad => pure none
+          | .absent => failure)
+        pure (Cli.QueryFile.content doc lines)
+      | _ => failure
+    let resp ← listOf (do let k ← JsonProto.str; let v ← JsonProto.json; pure (k, v))
+    let env : String → Bool × Bool := fun n => (lookupStr envT n).getD (true, true)
+    let app : App := { plugins := plugins, parallelism := selfPar, persist := true,
+                       policy := .file { openOk := true, writeOk := true, flushRate := none } }
+    let args : Cli.CliArgs := { chunksize := chunksize, newlineDelimited := nd }
+    pure (cliOut (Cli.commandLineRunnerO (callO floatOps env app runCfg (respondOf resp)) args cfg file))
   | "ibuild" => do
     let params ← JsonProto.json
     let ps ← optOf JsonProto.json
